@@ -37,7 +37,7 @@ def main():
     res = {'property': a.prop, 'mutation': a.k, 'repo_head': sh(['git', '-C', '/repo', 'rev-parse', 'HEAD']).stdout.strip()}
     try:
         shutil.copy('/repo/python/numqi/_version.py', f'{wt}/python/numqi/_version.py')
-        env = dict(os.environ, PYTHONPATH=f'{wt}/python', OMP_NUM_THREADS='2')
+        env = dict(os.environ, PYTHONPATH=f'{wt}/python', OMP_NUM_THREADS='1', MKL_NUM_THREADS='1', OPENBLAS_NUM_THREADS='1')
         demo = os.path.join(src, 'demo.py')
         r0 = sh(['/venv/bin/python', demo], cwd=wt, env=env, timeout=900)
         res['demo_clean_exit'] = r0.returncode
@@ -51,19 +51,33 @@ def main():
         if not a.no_suite and res['patch_applies']:
             xml = f'/tmp/cf_{a.prop}_{a.k}.xml'
             t0 = time.time()
-            sh(f'/venv/bin/python -m pytest -q -p no:cacheprovider --timeout=900 --continue-on-collection-errors -n 7 --junitxml={xml}',
-               cwd=wt, env=env, timeout=3600)
+            sh(f'/venv/bin/python -m pytest -q -p no:cacheprovider --timeout=900 --continue-on-collection-errors -n 6 --junitxml={xml}',
+               cwd=wt, env=env, timeout=7200)
             res['suite_wall_s'] = round(time.time() - t0)
             fails, npass = [], 0
+            ids = {}
             for tc in ET.parse(xml).getroot().iter('testcase'):
                 bad = any(c.tag in ('failure', 'error') for c in tc)
                 if bad:
                     fails.append(tc.get('name'))
+                    ids[tc.get('name')] = tc.get('classname').replace('.', '/') + '.py::' + tc.get('name')
                 elif not any(c.tag == 'skipped' for c in tc):
                     npass += 1
             res['suite_passed'] = npass
             res['suite_failed'] = fails
-            res['suite_unexpected_failures'] = [f for f in fails if f not in FLAKY]
+            unexpected = [f for f in fails if f not in FLAKY]
+            # a failure outside the known-flaky list is re-run alone (twice): passing both times classifies it as flaky on this tree
+            rerun = {}
+            for f in list(unexpected):
+                oks = 0
+                for _ in range(2):
+                    rr = sh(f'/venv/bin/python -m pytest -q -p no:cacheprovider --timeout=900 "{ids[f]}"', cwd=wt, env=env, timeout=1800)
+                    oks += rr.returncode == 0
+                rerun[f] = f'{oks}/2 passed when re-run alone'
+                if oks == 2:
+                    unexpected.remove(f)
+            res['suite_reruns'] = rerun
+            res['suite_unexpected_failures'] = unexpected
             os.remove(xml)
         # run the checks against the changed tree
         caught = {}
